@@ -36,7 +36,7 @@ LEVEL = "model_checking"
 # API the property names; checked on square blocks only unless this is switched on.
 CHECK_SEQBIDX_RECT = False
 
-BATCH = 64            # structures evaluated per sandbox child
+BATCHES_PER_WORKER = 3        # sandbox children per pool worker (strided batches of structures)
 
 _CALLS = [0]          # implementation calls compared with the reference (per process)
 
@@ -981,7 +981,7 @@ def ml_cases(tier, seed):
                        + list(itertools.product(small, r33))))
     # L = 3
     groups.append(("L3:all-triples-2x2", "full", list(itertools.product(P22, P22, P22))))
-    pool3 = (d22 + d23 + d32) if quick else (r22 + r23 + r32)
+    pool3 = (d22 + d23[0::2] + d32[0::2]) if quick else (r22 + r23 + r32)
     mixed = [t for t in itertools.product(pool3, repeat=3) if any(len(P) != len(P[0]) for P in t)]
     groups.append(("L3:mixed-rectangular", "full" if quick else "core", mixed))
     # L = 4 (generic n-level routine)
@@ -993,13 +993,27 @@ def ml_cases(tier, seed):
         pool4 = [d22[0], d22[1], d23[0], d23[1], d32[0], d32[2]]
     groups.append(("L4:mixed-rectangular", "core",
                    [t for t in itertools.product(pool4, repeat=4) if any(len(P) != len(P[0]) for P in t)]))
-    # L = 5, 6: first-nonzero covering sets
-    groups.append(("L5:2x2-first-nonzero-cover", "core", list(itertools.product(d22, repeat=5))))
+    # L = 5, 6: first-nonzero covering sets (d22 = dense-from-first-nonzero for each of the 4 positions)
+
+    def cover(pool, extra, L):
+        """all tuples over pool, plus the tuples that put one pattern of `extra` on one level of the all-dense tuple"""
+        ts = list(itertools.product(pool, repeat=L))
+        for k in range(L):
+            for P in extra:
+                t = [pool[0]] * L
+                t[k] = P
+                if tuple(t) not in ts:
+                    ts.append(tuple(t))
+        return ts
+    if quick:
+        groups.append(("L5:2x2-first-nonzero-cover", "core", cover(d22[:3], d22[3:], 5)))
+        groups.append(("L6:2x2-first-nonzero-cover", "core", cover(d22[:2], d22[2:], 6)))
+    else:
+        groups.append(("L5:2x2-first-nonzero-cover", "core", list(itertools.product(d22, repeat=5))))
+        groups.append(("L6:2x2-first-nonzero-cover", "core", list(itertools.product(d22, repeat=6))))
     pool5 = [d22[1], d23[1], d32[2]] if quick else [d22[1], d22[2], d23[1], d32[2]]
     groups.append(("L5:mixed-rectangular", "core",
                    [t for t in itertools.product(pool5, repeat=5) if any(len(P) != len(P[0]) for P in t)]))
-    pool6 = d22[:3] if quick else d22
-    groups.append(("L6:2x2-first-nonzero-cover", "core", list(itertools.product(pool6, repeat=6))))
     pool6r = [d23[1], d32[2]] if quick else [d22[1], d23[1], d32[2]]
     groups.append(("L6:mixed-rectangular", "core",
                    [t for t in itertools.product(pool6r, repeat=6) if any(len(P) != len(P[0]) for P in t)]))
@@ -1168,13 +1182,16 @@ def run(ctx):
     # gc.freeze keeps the workers' garbage collector away from the (shared, copy-on-write) case lists.
     plain = ixc + kvc + kpc + [c for c in mlc if not needs_sandbox(c)]
     boxed = [c for c in mlc if needs_sandbox(c)]
-    batches = [boxed[i:i + BATCH] for i in range(0, len(boxed), BATCH)]
+    # strided batches (even load), few of them: every sandbox child costs a fork of the whole interpreter
+    nb = max(1, min(len(boxed) // 8 or 1, par.workers_default() * BATCHES_PER_WORKER))
+    batches = [boxed[j::nb] for j in range(nb)]
     gc.collect()
     gc.freeze()
     try:
         res_plain = par.pmap(_worker, plain, chunk=max(1, min(48, len(plain) // 256 or 1)))
         ctx.log("%d cases evaluated in-process" % len(plain))
-        res_boxed = [r for rs in par.pmap(_batch_worker, batches, chunk=1, min_parallel=2) for r in rs]
+        rb = par.pmap(_batch_worker, batches, chunk=1, min_parallel=2)
+        res_boxed = [rb[i % nb][i // nb] for i in range(len(boxed))]
         ctx.log("%d rectangular 2-/3-level structures evaluated in %d sandbox batches" % (len(boxed), len(batches)))
     finally:
         gc.unfreeze()
@@ -1219,7 +1236,7 @@ def run(ctx):
         "row/column lists are duplicate-free lists of Python ints or int64 arrays; pairs are exhaustive up to 9 rows, a covering "
         "family beyond",
         "linear maps are decided on every unit vector with integer payloads (no value-dependent control flow in the kernels)",
-        "2-/3-level structures with M != N are evaluated entirely inside forked sandbox children (batches of %d, a dead child is charged to the structure it was working on); ml_matvec_2d/3d are entered through a guard that checks the buffer lengths first" % BATCH,
+        "2-/3-level structures with M != N are evaluated entirely inside forked sandbox children (in batches; a dead child is charged to the structure it was working on); ml_matvec_2d/3d are entered through a guard that checks the buffer lengths first",
         "knot vectors are open with interior multiplicities 1..max(1,p), degrees 0..3 (quick) / 0..4 (thorough), meshes "
         "U1,U2,U3,U4,G3 (U1<U2<U4 nested; U3, G3 not nested with the others)",
         "reindex_* are called with int64 ndarray block sizes as in the documentation/tests",
